@@ -86,6 +86,10 @@ class SymMatrix:
     def data(self):
         return _np.array([x for x in self.a.flat if not _isnum0(x)], dtype=object)
 
+    def count_nonzero(self):
+        """value-dependent: every symbolic entry is compared with 0 (the comparison is a recorded path condition)"""
+        return sum(1 for x in self.a.flat if (x != 0))
+
     @property
     def T(self):
         return SymMatrix(self.a.T.copy())
